@@ -142,6 +142,22 @@ impl<'a> Iterator for ColourStream<'a> {
         self.k += 1;
         Some(c)
     }
+    // half of the streams report their exact remaining length, like slices and ranges do; the others
+    // report the default (0, None), like from_fn / filter chains
+    fn size_hint(&self) -> (usize, Option<usize>) {
+        match self.len {
+            StreamLen::Finite(l) if self.seed & 1 == 1 => {
+                let rem = l.saturating_sub(self.k);
+                if rem <= usize::MAX as u64 {
+                    (rem as usize, Some(rem as usize))
+                } else {
+                    (usize::MAX, None)
+                }
+            }
+            StreamLen::Infinite if self.seed & 1 == 1 => (usize::MAX, None),
+            _ => (0, None),
+        }
+    }
     // O(1) skip, like slices / ranges / repeat have
     fn nth(&mut self, n: usize) -> Option<u32> {
         self.pulls.set(self.pulls.get() + 1);
@@ -176,6 +192,9 @@ impl<'a, C: HColor> Iterator for ToColour<'a, C> {
     type Item = C;
     fn next(&mut self) -> Option<C> {
         self.inner.next().map(C::from_raw)
+    }
+    fn size_hint(&self) -> (usize, Option<usize>) {
+        self.inner.size_hint()
     }
     fn nth(&mut self, n: usize) -> Option<C> {
         self.inner.nth(n).map(C::from_raw)
@@ -425,15 +444,24 @@ where
     M::ColorFormat: InterfacePixelFormat<DI::Word>,
     RST: OutputPin,
 {
-    b.display_size(cfg.w, cfg.h)
-        .display_offset(cfg.ox, cfg.oy)
-        .orientation(cfg.orient.to_mipidsi())
-        .color_order(if cfg.bgr { ColorOrder::Bgr } else { ColorOrder::Rgb })
-        .invert_colors(if cfg.invert { ColorInversion::Inverted } else { ColorInversion::Normal })
-        .refresh_order(RefreshOrder::new(
-            if cfg.refresh_v { VerticalRefreshOrder::BottomToTop } else { VerticalRefreshOrder::TopToBottom },
-            if cfg.refresh_h { HorizontalRefreshOrder::RightToLeft } else { HorizontalRefreshOrder::LeftToRight },
-        ))
+    // the builder setters are independent of each other: apply them in an order that varies with the
+    // configuration, so that an accidental dependency on the call order is exercised
+    let mut b = b;
+    let rot = (cfg.w as usize * 7 + cfg.h as usize * 3 + cfg.ox as usize + cfg.oy as usize * 5 + cfg.orient.index()) % 6;
+    for i in 0..6 {
+        b = match (i + rot) % 6 {
+            0 => b.display_size(cfg.w, cfg.h),
+            1 => b.display_offset(cfg.ox, cfg.oy),
+            2 => b.orientation(cfg.orient.to_mipidsi()),
+            3 => b.color_order(if cfg.bgr { ColorOrder::Bgr } else { ColorOrder::Rgb }),
+            4 => b.invert_colors(if cfg.invert { ColorInversion::Inverted } else { ColorInversion::Normal }),
+            _ => b.refresh_order(RefreshOrder::new(
+                if cfg.refresh_v { VerticalRefreshOrder::BottomToTop } else { VerticalRefreshOrder::TopToBottom },
+                if cfg.refresh_h { HorizontalRefreshOrder::RightToLeft } else { HorizontalRefreshOrder::LeftToRight },
+            )),
+        };
+    }
+    b
 }
 
 fn map_init_err<E: ErrInfo>(e: InitError<E, Fault>) -> DutErr {
